@@ -52,11 +52,13 @@ struct leaf_op : leaf_base {
 };
 template <bool Void, template <typename...> class V, template <typename...> class T> struct mleaf_values { using type = V<T<int>>; };
 template <template <typename...> class V, template <typename...> class T> struct mleaf_values<true, V, T> { using type = V<T<>>; };
+template <bool EPtr, template <typename...> class V> struct mleaf_errors { using type = V<int>; };
+template <template <typename...> class V> struct mleaf_errors<true, V> { using type = V<std::exception_ptr>; };
 template <bool Void, bool EPtr = false>
 struct basic_leaf_sender {
   int idx;
   template <template <typename...> class V, template <typename...> class T> using value_types = typename mleaf_values<Void, V, T>::type;
-  template <template <typename...> class V> using error_types = std::conditional_t<EPtr, V<std::exception_ptr>, V<int>>;
+  template <template <typename...> class V> using error_types = typename mleaf_errors<EPtr, V>::type;
   static constexpr bool sends_done = true;
   static constexpr unifex::blocking_kind blocking = unifex::blocking_kind::never;
   template <typename R> leaf_op<unifex::remove_cvref_t<R>, Void, EPtr> connect(R&& r) const& noexcept { return {(R&&)r, idx}; }
